@@ -225,10 +225,10 @@ inline void run_batch(long n, const std::function<std::string(long)> &fn, const 
     else cr.exitcode = WEXITSTATUS(st);
     if (cr.sig == SIGALRM || cr.sig == SIGKILL || cr.sig == SIGTERM) {
       // the wall-clock alarm, or a kill from outside (OOM killer, a supervisor): nothing the code under test did is proven yet.
-      // The case is deterministic, so it is run again alone with a much longer limit; only a hang that repeats is reported.
+      // The case is deterministic, so it is run again alone with a longer limit (3x, then 8x); only a hang that repeats is reported.
       CaseResult again;
       bool settled = false;
-      for (int attempt = 0; attempt < 2 && !settled; attempt++) settled = run_alone(k, fn, per_case_alarm_s * (attempt ? 20 : 6), again);
+      for (int attempt = 0; attempt < 2 && !settled; attempt++) settled = run_alone(k, fn, per_case_alarm_s * (attempt ? 8 : 3), again);
       if (settled) cr = again;
       else { cr = again; timeouts++; }
     }
